@@ -7,7 +7,7 @@ bursts; its ordered trace of shared-memory steps is replayed through the Lean tr
 Only benign commands are generated (the command text is built inside the harness from numbers:
 sleep / echo / a counting loop / `kill -KILL $$` / `exit 3`)."""
 ID = "C20"
-EXTRA_PROPS = ["ScrollFnsTables"]   # act_scroll_down / act_scroll_right as TRANSLATED from src/previewer.rs = the model; content lock held over load..store
+EXTRA_PROPS = ["ScrollFnsTables", "DedupeFnsTables"]   # act_scroll_down / act_scroll_right as TRANSLATED from src/previewer.rs = the model; content lock held over load..store
 SUBMODULES = ["c20s"]          # session-level stream: the Model's wiring of the previewer, see c20s.py / session.py
 N_QUICK, N_THOROUGH = 200, 5000
 STRICT_MODEL = True
